@@ -26,6 +26,12 @@ func c03(c *Ctx) {
 	c.Rule("C03.R7", "the release gate is applied to the bindings of both address families (syncPods hands releasePodNotFound the IPv4 and the IPv6 index)")
 	c02FamilyRoles(c, "C03.R7")
 	c03R8(c)
+	// an address a running pod reports is never unbound by the dual-stack roll-back, and the full
+	// sync never replaces what the record knows about an address (shared rules)
+	c02R5(c)
+	mergeRule(c, "C08.R10")
+	// "verified no longer exist": the API re-check answers 'absent' only for NotFound / another node
+	rulePodExist(c, "C09.R6")
 }
 
 // R1 release gate in releasePodNotFound.
@@ -97,6 +103,33 @@ func c03R1(c *Ctx) {
 				fin := e.Cond(identFor(info, finOK))
 				return mkAnd(notListed, mkOr(uidEmpty, mkAnd(fin, stDel))), nil
 			})
+		// completeness ("once the pod is gone and teardown is reported, the address does become free
+		// again", for every address of the pod in the same pass): within one iteration over the bound
+		// addresses, whenever the gate holds the unbind is reached — no memo, counter or earlier
+		// address of the same pod lets one be skipped
+		var loopBody *ast.BlockStmt
+		for _, nd := range pathTo(fn.Decl.Body, s.Node) {
+			if rs, ok := nd.(*ast.RangeStmt); ok {
+				loopBody = rs.Body
+			}
+		}
+		if loopBody != nil {
+			c.RequireReachedF("C03.R1", "every address of a gone pod whose teardown is confirmed is unbound in the same pass", fn, loopBody, s.Node,
+				"bound && !podListed && ("+base+".PodUID == \"\" || (finalStatusOK && finalStatus == deleted))", func(e *FactEngine) (*Formula, error) {
+					uidEmpty, err := e.Expr(base+`.PodUID == ""`, s.Node.Pos())
+					if err != nil {
+						return nil, err
+					}
+					bound, err := e.Expr(base+`.PodID != ""`, s.Node.Pos())
+					if err != nil {
+						return nil, err
+					}
+					stDel := e.eqAtom(objID(finStatus), "#"+deleted, []string{objID(finStatus)})
+					notListed := mkNot(e.Cond(identFor(info, podOK)))
+					fin := e.Cond(identFor(info, finOK))
+					return mkAnd(bound, mkAnd(notListed, mkOr(uidEmpty, mkAnd(fin, stDel)))), nil
+				})
+		}
 	}
 	c.Floor("C03.R1", "unbind stores in releasePodNotFound", 1, n)
 	// the final status is computed from the runtime entry of this UID, looked up successfully
